@@ -8,6 +8,7 @@ import (
 	"crypto/sha256"
 	"fmt"
 	"strings"
+	"sync"
 )
 
 // H is a SHA-256 hash.
@@ -46,6 +47,7 @@ func k2(n int) int {
 // Log is a sequence of records with memoised sub-range hashes.
 type Log struct {
 	Recs [][]byte
+	mu   sync.Mutex // guards memo; a Log may be read from several goroutines
 	memo map[[2]int]H
 }
 
@@ -64,12 +66,17 @@ func (l *Log) MTH(lo, hi int) H {
 		return Leaf(l.Recs[lo])
 	}
 	key := [2]int{lo, hi}
-	if h, ok := l.memo[key]; ok {
+	l.mu.Lock()
+	h, ok := l.memo[key]
+	l.mu.Unlock()
+	if ok {
 		return h
 	}
 	k := k2(hi - lo)
-	h := Node(l.MTH(lo, lo+k), l.MTH(lo+k, hi))
+	h = Node(l.MTH(lo, lo+k), l.MTH(lo+k, hi))
+	l.mu.Lock()
 	l.memo[key] = h
+	l.mu.Unlock()
 	return h
 }
 
